@@ -45,12 +45,48 @@ def norm(node):
 
 
 def default_idiom(node):
-    """``x if x is not None else d`` -> (x-text, d-text) ; else None"""
+    """``x if x is not None else d`` or ``d if x is None else x`` -> (x-text, d-text) ; else None"""
     if isinstance(node, ast.IfExp) and isinstance(node.test, ast.Compare) and len(node.test.ops) == 1 \
-            and isinstance(node.test.ops[0], ast.IsNot) and isinstance(node.test.comparators[0], ast.Constant) \
-            and node.test.comparators[0].value is None and norm(node.test.left) == norm(node.body):
-        return norm(node.body), norm(node.orelse)
+            and isinstance(node.test.comparators[0], ast.Constant) and node.test.comparators[0].value is None:
+        if isinstance(node.test.ops[0], ast.IsNot) and norm(node.test.left) == norm(node.body):
+            return norm(node.body), norm(node.orelse)
+        if isinstance(node.test.ops[0], ast.Is) and norm(node.test.left) == norm(node.orelse):
+            return norm(node.orelse), norm(node.body)
     return None
+
+
+def expr_poly(node):
+    """arithmetic expression -> polynomial with attributes / calls / subscripts as opaque atoms
+    (call arguments are normalised recursively); None when it is not arithmetic"""
+    from .poly import P, from_ast, nfs
+
+    def leaf(n):
+        if isinstance(n, ast.Call):
+            args = []
+            for a in n.args:
+                pa = expr_poly(a)
+                args.append(nfs(pa) if pa is not None else norm(a))
+            kws = ['%s=%s' % (k.arg, norm(k.value)) for k in n.keywords]
+            return P.sym('%s(%s)' % (dotted(n.func) or norm(n.func), ','.join(sorted(args) if (dotted(n.func) or '') in ('min', 'max') else args + kws)))
+        return P.sym(norm(n))
+    try:
+        return from_ast(node, {}, leaf)
+    except Exception:
+        return None
+
+
+def same_expr(node, text):
+    """semantic comparison of an expression with an expected formula (text)"""
+    if node is None:
+        return False
+    a = expr_poly(node)
+    try:
+        b = expr_poly(ast.parse(text, mode='eval').body)
+    except SyntaxError:
+        return False
+    if a is None or b is None:
+        return norm(node) == text.replace(' ', '')
+    return a.close(b)
 
 
 def local_defs(fn):
